@@ -429,11 +429,24 @@ def small_cfgs(max_ntasks, max_waits, faults):
                        "script": {"choice": list(choice), "outs": list(outs)}}
 
 
-def run_check(ctx, modules, oracles, faults, explanation, extra_trusted=(), partial=()):
+def run_check(ctx, modules, oracles, faults, explanation, extra_trusted=(), partial=(), real_async=False):
     """shared body of C05 / C06 / C19"""
     proof = core.prove(modules, leanchecker=ctx.thorough)
     corr = core.Corr("BlockingRunner/AsyncRunner~Runner.lean")
     failures, cases, nontrivial = [], [], set()
+    if real_async:
+        # AsyncRunner + coroutine function on a real event loop: nothing the runner started may still be running when it stops
+        from harness import runner_real_async as ra
+        nreal = 0
+        for o in core.pmap(ra.scenario, ra.gen(ctx.rng, ctx.n(160, 2000))):
+            nreal += 1
+            if o.get("skipped"):
+                corr.count("real_async_skipped:" + o["skipped"])
+            corr.count("real_async:" + str(o.get("status")))
+            if o["fail"]:
+                failures.append({"clause": o["fail"][0], "signature": f"{ctx.prop_id}.{o['fail'][0]}", "detail": o["fail"][1],
+                                 "replay": {"real_async": o["cfg"]}})
+        corr.distribution["real_event_loop_scenarios"] = nreal
     cfgs = [gen_cfg(ctx.rng, faults, ctx.thorough) for _ in range(ctx.n(400, 6000))]
     nsmall = 0
     for c in small_cfgs(*( (3, 5) if ctx.thorough else (2, 4) ), faults):
@@ -498,6 +511,11 @@ def replay(ctx, path, oracles):
     import json
     d = json.load(open(path))
     cfg = d.get("replay", d)
+    if "real_async" in cfg:
+        from harness import runner_real_async as ra
+        o = ra.scenario(cfg["real_async"])
+        print(o)
+        return 1 if o["fail"] else 0
     res = execute(cfg)
     rc = 0
     for name, orc in oracles:
